@@ -395,7 +395,11 @@ pub mod sr {
         pub m: Arc<M>,
         pub depth_bound: usize,
         pub depth_of: fn(&M, &M::State) -> usize,
+        /// evaluate the oracle in every state again (models up to RECHECK_LIMIT states); above that the cross-check
+        /// compares the reachable state sets only - the oracle has already run in every state under the explorer
+        pub recheck: bool,
     }
+    pub const RECHECK_LIMIT: u64 = 20_000;
     unsafe impl<M: Model> Send for Adapter<M> {}
     unsafe impl<M: Model> Sync for Adapter<M> {}
 
@@ -417,6 +421,9 @@ pub mod sr {
             // violations listed as known findings do not count: stateright stops exploring as soon as every
             // property has a discovery, so a known finding would otherwise end the search early
             vec![stateright::Property::<Self>::always("invariants", |a, s| {
+                if !a.recheck {
+                    return true;
+                }
                 let mut obs = Obs::new();
                 let r = guard(|| a.m.check(s, &mut obs));
                 r.is_ok() && obs.violations.iter().all(|v| is_known_key(&v.key))
@@ -429,6 +436,7 @@ pub mod sr {
         m: Arc<M>,
         depth_bound: usize,
         depth_of: fn(&M, &M::State) -> usize,
+        recheck: bool,
     ) -> (u64, bool)
     where
         M::Action: PartialEq,
@@ -438,6 +446,7 @@ pub mod sr {
             m,
             depth_bound,
             depth_of,
+            recheck,
         };
         let checker = a.checker().threads(16).spawn_bfs().join();
         let n = checker.unique_state_count() as u64;
@@ -623,13 +632,13 @@ impl Report {
     {
         let name = m.name();
         let t0 = Instant::now();
-        let (n, disc) = sr::cross_check(m, depth_bound, depth_of);
         let ours = self
             .models
             .iter()
             .find(|s| s.model == name)
             .map(|s| s.states)
             .unwrap_or(0);
+        let (n, disc) = sr::cross_check(m, depth_bound, depth_of, ours <= sr::RECHECK_LIMIT);
         eprintln!(
             "[{}] stateright cross-check {}: unique_states={} (explorer {}), discovery={} ({:.1}s)",
             self.property,
